@@ -572,6 +572,10 @@ func newBusHarness(prog *busProgram) *busHarness {
 		}
 	}
 	var opts []eb.Option
+	// half of the programs configure the legacy hooks and handlers through the backward-compatibility setters after New
+	// (before any concurrent use, as the setters require); the configuration is the same
+	useSetters := len(prog.opts)%2 == 1
+	var late []func(b *eb.EventBus)
 	for i, o := range prog.opts {
 		arg := prog.optArgs[i]
 		switch o {
@@ -580,10 +584,20 @@ func newBusHarness(prog *busProgram) *busHarness {
 			opts = append(opts, eb.WithStore(h.store), eb.WithPersistenceTimeout(time.Hour))
 		case "beforeLegacy":
 			f := hook(0, arg)
-			opts = append(opts, eb.WithBeforePublish(func(t reflect.Type, ev any) { f(ev.(pider).pid()) }))
+			hk := func(t reflect.Type, ev any) { f(ev.(pider).pid()) }
+			if useSetters {
+				late = append(late, func(b *eb.EventBus) { b.SetBeforePublishHook(hk) })
+			} else {
+				opts = append(opts, eb.WithBeforePublish(hk))
+			}
 		case "afterLegacy":
 			f := hook(2, arg)
-			opts = append(opts, eb.WithAfterPublish(func(t reflect.Type, ev any) { f(ev.(pider).pid()) }))
+			hk := func(t reflect.Type, ev any) { f(ev.(pider).pid()) }
+			if useSetters {
+				late = append(late, func(b *eb.EventBus) { b.SetAfterPublishHook(hk) })
+			} else {
+				opts = append(opts, eb.WithAfterPublish(hk))
+			}
 		case "beforeCtx":
 			f := hook(1, arg)
 			opts = append(opts, eb.WithBeforePublishContext(func(ctx context.Context, t reflect.Type, ev any) { f(ev.(pider).pid()) }))
@@ -591,7 +605,7 @@ func newBusHarness(prog *busProgram) *busHarness {
 			f := hook(3, arg)
 			opts = append(opts, eb.WithAfterPublishContext(func(ctx context.Context, t reflect.Type, ev any) { f(ev.(pider).pid()) }))
 		case "panicHandler":
-			opts = append(opts, eb.WithPanicHandler(func(ev any, ht reflect.Type, pv any) {
+			ph := eb.PanicHandler(func(ev any, ht reflect.Type, pv any) {
 				g := gid()
 				h.mu.Lock()
 				st := h.ridStk[g]
@@ -599,16 +613,29 @@ func newBusHarness(prog *busProgram) *busHarness {
 				// the panicking handler's frame has been unwound: its rid was popped; it is recorded by onHandler's defer
 				rid := h.lastPanicRid(g, st)
 				h.ctl.point(C("LPanicHandler", Nat(ev.(pider).pid()), Nat(rid)), true, h.noBind)
-			}))
+			})
+			if useSetters {
+				late = append(late, func(b *eb.EventBus) { b.SetPanicHandler(ph) })
+			} else {
+				opts = append(opts, eb.WithPanicHandler(ph))
+			}
 		case "persistErr":
-			opts = append(opts, eb.WithPersistenceErrorHandler(func(ev any, t reflect.Type, err error) {
+			pe := eb.PersistenceErrorHandler(func(ev any, t reflect.Type, err error) {
 				h.ctl.point(C("LPersistErr", Nat(ev.(pider).pid())), true, h.noBind)
-			}))
+			})
+			if useSetters {
+				late = append(late, func(b *eb.EventBus) { b.SetPersistenceErrorHandler(pe) })
+			} else {
+				opts = append(opts, eb.WithPersistenceErrorHandler(pe))
+			}
 		case "obs":
 			opts = append(opts, eb.WithObservability(hObs{h}))
 		}
 	}
 	h.bus = eb.New(opts...)
+	for _, f := range late {
+		f(h.bus)
+	}
 	return h
 }
 
